@@ -4,6 +4,8 @@
    implementation that the Rust twin of the validator has already judged. *)
 From Coq Require Import List ZArith Bool Floats.
 From SC Require Import Base.FloatUtil Base.Num C02.Model C02.Validator.
+From SC Require Import C02.FunMat C02.ModelTred2 C02.ModelTql2 C02.ModelSymEvd.
+From SC Require Export C02.CorrHess C02.CorrTql2.
 Import ListNotations.
 
 (* bit pattern equality up to the sign of zero, NaN = NaN *)
@@ -52,3 +54,31 @@ Definition corr_check_sym (tol : float) (A V : list (list float)) (d e : list fl
   Bool.eqb (check_evd_sym tol A V d e) verdict.
 Definition corr_check_gen (tol1 tol2 tolv : float) (A V : list (list float)) (d e : list float) (verdict : bool) : bool :=
   Bool.eqb (check_evd_gen tol1 tol2 tolv A V d e) verdict.
+
+(* ---- tred2 : rows of A -> rows of V, d, e.  Bit-exact: the routine only uses + - * / sqrt |.| and the
+        model performs them in the code's order ---- *)
+Definition corr_tred2 (A xV : list (list float)) (xd xe : list float) : bool :=
+  match tred2_rows FOps A with
+  | Some (V, d, e) => fmat_eq V xV && flist_eq d xd && flist_eq e xe
+  | None => false
+  end.
+
+(* ---- tql2 as a whole (QL sweeps of ModelTql2.v, then the final sort) on (V, d, e) as tred2 left them.
+        The implementation calls libm's hypot, the model sqrt(a*a+b*b): agreement is by tolerance
+        (relative to max|d|,|e| for the eigenvalues, to max|V| for the vectors) and up to the sign of each
+        column (one more or one fewer sweep on a converged block may negate two columns).  The harness
+        only sends inputs whose eigenvalues are well separated, so that order and vectors are determined.
+        The model must also report e = 0 and the ghost flag `ok` (no rotation with r = 0). ---- *)
+Definition fcol_eq_sign (tol scale : float) (c x : list float) : bool :=
+  flist_eq_abs tol scale c x || flist_eq_abs tol scale (map PrimFloat.opp c) x.
+Definition corr_tql2 (tol : float) (V : list (list float)) (d e : list float)
+    (xV : list (list float)) (xd : list float) : bool :=
+  match tql2_ql_f64 V d e with
+  | None => false
+  | Some (V', d', e', ok) =>
+      let n := length d in
+      let '(d'', C) := tql2_sort_ops FOps d' (transpose_rows 0%float n V') in
+      ok && forallb (fun x => PrimFloat.eqb x 0%float) e' &&
+      flist_eq_abs tol (fmax (fmaxabs d) (fmaxabs e)) d'' xd &&
+      list_eqb (fcol_eq_sign tol (fmaxabs_mat V)) C (transpose_rows 0%float n xV)
+  end.
